@@ -49,9 +49,14 @@ def gen(seed: int, tier: str) -> dict[str, Any]:
     ops = []
     for i in range(rng.choice([5, 12, 25])):
         k = rng.choices(["plain_keyed", "plain_unkeyed", "sec_keyed", "sec_unkeyed", "sync", "tool", "sbc", "p2p_secure",
-                         "wrong_key", "malformed_inner", "out_keyed", "out_unkeyed", "out_setter"],
-                        [4, 2, 3, 1, 1, 1, 1, 1, 1, 8, 2, 1, 1])[0]
+                         "wrong_key", "malformed_inner", "out_keyed", "out_unkeyed", "out_setter", "out_p2p", "out_bcast"],
+                        [4, 2, 3, 1, 1, 1, 1, 1, 1, 8, 3, 1, 1, 2, 1])[0]
         op: dict[str, Any] = {"op": k, "id": i + 1}
+        if k == "out_p2p":
+            # point-to-point telegrams share the 16-bit raw address space with group addresses: some go to the individual
+            # address whose raw value equals the keyed / unkeyed group address
+            op["dst"] = rng.choice(["raw=keyed", "raw=keyed", "raw=unkeyed", "other"])
+            op["tpci"] = rng.choice(["connect", "disconnect", "individual"])
         if k == "malformed_inner":
             form = rng.choice(["empty", "one", "head_only", "head+1", "head+n", "random"])
             op["form"] = form
@@ -65,8 +70,8 @@ def gen(seed: int, tier: str) -> dict[str, Any]:
 def run(plan: dict[str, Any]) -> dict[str, Any]:
     from xknx.devices import Switch
     from xknx.dpt import DPTArray
-    from xknx.telegram import GroupAddress, Telegram
-    from xknx.telegram.apci import GroupValueWrite
+    from xknx.telegram import GroupAddress, IndividualAddress, Telegram, tpci as T
+    from xknx.telegram.apci import DeviceDescriptorRead, GroupValueWrite, IndividualAddressRead
 
     R = Run(plan, max_time=5000.0)
     loop = R.loop
@@ -98,7 +103,13 @@ def run(plan: dict[str, Any]) -> dict[str, Any]:
         tx.xknx.devices.async_add(sw_k)
         await rx.xknx.start()
         await tx.xknx.start()
-        tx.stub.on_send = lambda raw, rec: out_frames.append((W.parse_cemi_ldata(raw)["dst"], raw))
+        def on_send(raw, rec):
+            c = W.parse_cemi_ldata(raw)
+            if c["group"]:
+                out_frames.append((c["dst"], raw))
+            elif D.parse_secure(raw) is None:
+                R.probes["outgoing_point_to_point_plain"] += 1
+        tx.stub.on_send = on_send
         for op in plan["ops"]:
             k = op["op"]
             apdu = bytes((0x00, 0x81))
@@ -137,6 +148,18 @@ def run(plan: dict[str, Any]) -> dict[str, Any]:
                                                       payload=GroupValueWrite(DPTArray((op["id"] & 0xFF,)))))
             elif k == "out_setter":
                 await sw_k.set_on()
+            elif k == "out_p2p":
+                dst = {"raw=keyed": GK, "raw=unkeyed": GU, "other": W.ia(1, 1, 77)}[op["dst"]]
+                if op["tpci"] == "individual":
+                    tg = Telegram(destination_address=IndividualAddress(dst), tpci=T.TDataIndividual(),
+                                  payload=DeviceDescriptorRead(descriptor=0))
+                else:
+                    tg = Telegram(destination_address=IndividualAddress(dst),
+                                  tpci=T.TConnect() if op["tpci"] == "connect" else T.TDisconnect())
+                tx.xknx.telegrams.put_nowait(tg)
+            elif k == "out_bcast":
+                tx.xknx.telegrams.put_nowait(Telegram(destination_address=GroupAddress(0), tpci=T.TDataBroadcast(),
+                                                      payload=IndividualAddressRead()))
             if fr is not None:
                 rx.stub.deliver(fr, k)
             await asyncio.sleep(0.02)
